@@ -5,6 +5,7 @@ from vlib import c12_lib as L
 from vlib import c12_dyn as D
 from vlib import c12_bcorr as BC
 from vlib import c12_ext as EX
+from vlib import c12_bp as BP
 from vlib import c12_sites, c12_tpl, configs, coqrun
 from vlib.common import COQ
 from vlib.evm import Chain
@@ -27,7 +28,10 @@ META = {
             "symbolic operands; venom call sites with operand slices) over 184 keyword combinations are kernel-equal to Coq generators "
             "proved to compute that behaviour; pyrevm correspondence for storage contexts, raw_create, raw_args / revert_on_failure=False "
             "result shapes and precompile targets. Return types cover every word-sized type (interface, flag, decimal, bytesM, intN) "
-            "top level and nested.",
+            "top level and nested. create_from_blueprint guard: theorem blueprint_guard_exact (the asserts before CREATE revert iff "
+            "code_offset >= extcodesize(target), for every constructor-argument length), tied syntactically to the asserts both "
+            "generators emit over args shape x salt x revert_on_failure x code_offset operand (96 sites), plus a pyrevm sweep "
+            "code_offset x target x args x salt x revert_on_failure with the expectation computed from the documented rule.",
     "level_note": "Theorems are about the models; the models are tied by template observation (failure-handling steps) and by "
                   "correspondence on enumerated behaviours (structured corruptions of canonical returndata). Imports C05/C06 models "
                   "(owned by other checks). Trusted: Coq kernel, pyrevm, hand-assembled targets, eth_abi for canonical encodings, "
@@ -45,6 +49,11 @@ TIE_FILES = ["C12/GenCall.v", "C12/TieCall.v", "C12/PropsCallTpl.v"]
 EXT_STATIC = ["C12/EvmFrag.v", "C12/EvmFragProofs.v", "C12/PropsEvmFrag.v"]
 EXT_TIE = ["C12/GenSites.v", "C12/TieSites.v", "C12/PropsSites.v"]
 EXT_DEPS = ["C12/ExtCall.v", "C12/Builtins.v", "C12/CallTpl.v"]
+# create_from_blueprint guard (seeded change C12_m6): model + exactness theorem, O-tie of the emitted asserts, sweep
+BP_STATIC = ["C12/BpGuard.v", "C12/BpGuardProofs.v", "C12/PropsBpGuard.v"]
+BP_TIE = ["C12/GenBp.v", "C12/TieBp.v", "C12/PropsBpSites.v"]
+BP_DEPS = ["C12/ExtCall.v", "C12/CallTpl.v"]
+BP_WRAP_KEY = "C12:blueprint-code_offset-wraps"
 MAX_REPORTS = 3
 
 
@@ -124,8 +133,51 @@ def ext_build(ctx):
     return pend
 
 
+def bp_build(ctx):
+    """create_from_blueprint guard: regenerate GenBp.v (asserts between EXTCODESIZE and CREATE, both generators), build the
+    exactness theorem and the syntactic tie.  -> pending violation (kind, name, detail) or None"""
+    pend = None
+    files = list(BP_STATIC)
+    try:
+        text, n = BP.observe()
+        (COQ / "C12" / "GenBp.v").write_text(text)
+        files = BP_STATIC + BP_TIE
+        ctx.extra["blueprint_guard_sites"] = n
+    except Exception as e:   # the builtin no longer accepts symbolic operands / probe does not compile / no extcodesize before create
+        pend = ("translator-rejected", f"create_from_blueprint guard export failed: {type(e).__name__}: {e}", {"error": str(e)[:1500]})
+    b = ctx.coq_build_cached(files, deps=BP_DEPS)
+    if not b["ok"] and pend is None:
+        pend = ("theorem-broken", f"{b.get('failed_lemma')} in {b['file']} (create_from_blueprint guard: the asserts emitted before "
+                                  "CREATE are not the guard proved exact by blueprint_guard_exact)",
+                {"theorem": b.get("failed_lemma"), "file": b["file"], "coq_output": b["out"][-1500:]})
+    elif b["ok"] and pend is None:
+        ctx.extra["blueprint_guard_syntactic_matches"] = ctx.extra.get("blueprint_guard_sites")
+    return pend
+
+
+def bp_corr(ctx, cfgs, rnd):
+    """create_from_blueprint sweep on pyrevm (expectation = the documented rule).  -> (evaluations, must-revert cases, reports)"""
+    import random
+    with ProcessPoolExecutor(max_workers=3) as ex:
+        builds = list(ex.map(BP.compile_bp, cfgs, chunksize=1))
+    n = must = 0
+    reports = []
+    seed = rnd.randrange(2**64)
+    for cfg, bd in zip(cfgs, builds):
+        if not bd["ok"]:
+            reports.append(("correspondence-broken", f"blueprint factory does not compile under {cfg.name}: {bd['error']}",
+                            {"config": cfg.name, "error": bd["error"], "source": BP.SRC}))
+            continue
+        k, m, reps = BP.run_config(cfg, bd, random.Random(seed))
+        n += k
+        must += m
+        reports += reps
+    return n, must, reports
+
+
 def prebuild(ctx):
     ext_build(ctx)
+    bp_build(ctx)
 
 
 def ext_corr(ctx, cfgs, rnd):
@@ -437,6 +489,31 @@ def run(ctx):
             found = True
         reports.append((kind, name, detail))
     ctx.log(f'extension correspondence done at {_t.time() - ctx.t0:.0f}s')
+    # ---- create_from_blueprint guard (session 3, seeded change C12_m6)
+    bp_pending = bp_build(ctx)
+    try:
+        bn, bmust, breports = bp_corr(ctx, cfgs, ctx.rng("bp"))
+    except Exception as e:
+        bn, bmust, breports = 0, 0, []
+        if bp_pending is None:
+            bp_pending = ("correspondence-broken", f"create_from_blueprint sweep could not run: {type(e).__name__}: {e}", {"error": str(e)[:1500]})
+    n_eval += bn
+    n_nontriv += bmust
+    dist["blueprint_guard_sweep"] = bn
+    wrap_done = False
+    for kind, name, detail in breports:
+        if kind == "failing-input" and detail.get("class") == "signed-difference-wraps":
+            # finding on the unchanged tree (notes/C12.md, Findings): code_offset > codesize + 2^255 passes the signed guard
+            n_fail += 1
+            if not wrap_done:
+                wrap_done = True
+                ctx.violation("failing-input", name, detail, key=BP_WRAP_KEY)
+            continue
+        if kind == "failing-input":
+            n_fail += 1
+            found = True
+        reports.append((kind, name, detail))
+    ctx.log(f'create_from_blueprint guard: {bn} runs, {bmust} must-revert cases, done at {_t.time() - ctx.t0:.0f}s')
     shown = 0
     by_fn = {}
     for kind, name, detail in reports:
@@ -458,6 +535,8 @@ def run(ctx):
             ctx.violation(pending[0], pending[1], pending[2])
         if ext_pending is not None:
             ctx.violation(ext_pending[0], ext_pending[1], ext_pending[2])
+        if bp_pending is not None:
+            ctx.violation(bp_pending[0], bp_pending[1], bp_pending[2])
     ctx.corr["evaluations"] = n_eval
     ctx.corr["distinct_nontrivial"] = n_nontriv
     ctx.corr["rule"] = ("one evaluation = one (caller function, callee behaviour) pair executed under one configuration; non-trivial = "
